@@ -2,6 +2,15 @@
 """Regenerates MANIFEST.json from the table below (kept valid at all times)."""
 import json, sys
 CLAIMED = {
+ "C01": dict(level="fault_enumeration", tech="fault enumeration by generated structured wire mutations (proptest tape) with a signed-blocks equality oracle and an independent verifier (RefCrypto)",
+   text="For generated tokens (all algorithm mixes, first/third-party blocks, sealed or not) and a donor token (independent, same root, or sibling attenuation), every mutation kind of the catalogue (50 kinds: payload, next key, signature, version, external signature, container, proof, byte level) is applied at every block index and the variant is presented on all three entry points, plus four foreign root keys. An accepted variant must carry exactly the signed blocks of a legitimately issued token of the case, and RefCrypto must accept what the library accepted.",
+   note="signature primitives trusted; mutation catalogue + random parameters, not all byte strings; v0 blocks are not required to bind the previous signature", ref="4 C01"),
+ "C08": dict(level="fault_enumeration", tech="property-based testing of seal (metamorphic sealed-vs-unsealed oracle) + fault enumeration of post-seal operations and wire mutations",
+   text="Every generated token is sealed; the sealed token must verify on all entry points with unchanged blocks, accessors and revocation ids, authorize exactly like the unsealed twin under generated authorizers, refuse all 12 extending operations on three paths (in memory, reloaded, unverified-then-verified), and no variant of the C01 catalogue (including attacker grafts) may verify with added, removed or altered blocks.",
+   note="authorizers are total typed programs; re-encoding of the seal signature itself is not counted (no block changes)", ref="4 C08"),
+ "C15": dict(level="exploration", tech="stateful property-based testing of identifier stability + twin minting + fault enumeration of signature re-encodings",
+   text="Identifiers are compared after every build/append/third-party/seal/serialise/verify step of generated histories and against the wire signatures read by an independent decoder; two twins minted through the OS-RNG entry points must share no identifier; every accepted signature-level re-encoding must report the original identifiers.",
+   note="uniqueness is probabilistic (OS RNG); ECDSA high-S malleability is an open known finding", ref="4 C15"),
  "C02": dict(level="exploration", tech="stateful property-based testing (proptest tape generators) + differential oracle against an independent signer/verifier (RefCrypto/RefSigner)",
    text="Generated build/append/append_third_party/seal histories over all key-algorithm mixes; at every step the token must reload on all entry points with identical accessors and byte-identical re-serialisation, every signature must verify under an independent implementation of the specification's payload layouts, the declared signature versions must follow the specification's rule, and an independent signer must produce the very same bytes.",
    note="ed25519-dalek / p256 primitives trusted; hand-written protobuf reader for the container; contents restricted to wire-compatible Datalog", ref="4 C02"),
